@@ -1,4 +1,4 @@
-// GENERATED on every run by vlib/extract.py from /repo -- do not edit
+// GENERATED on every run by vlib/extract.py from /tmp/seedcheck-13127 -- do not edit
 #![allow(unused_imports, unused_variables, unused_mut, dead_code, unused_parens, unused_braces, non_snake_case)]
 use vstd::prelude::*;
 use core::cmp::Ordering;
@@ -237,6 +237,40 @@ pub proof fn lemma_lower_ascii_fixed(s: Seq<char>)
     ensures lower_ascii_seq(s) == s
 {
     assert(lower_ascii_seq(s) =~= s);
+}
+
+// ---- idempotence of lower-casing (C10, C12) ----
+/// A-validated (exhaustive over all scalar values): lower-casing the lower-case mapping of a char changes nothing
+#[verifier::external_body]
+pub proof fn axiom_lower_idem_char(c: char)
+    ensures lower_seq(u_to_lower(c)) == u_to_lower(c)
+{ }
+
+pub proof fn lemma_lower_seq_concat(a: Seq<char>, b: Seq<char>)
+    ensures lower_seq(a + b) == lower_seq(a) + lower_seq(b)
+    decreases b.len()
+{
+    if b.len() == 0 {
+        assert(a + b =~= a);
+        assert(lower_seq(a) + lower_seq(b) =~= lower_seq(a));
+    } else {
+        assert((a + b).drop_last() =~= a + b.drop_last());
+        assert((a + b).last() == b.last());
+        lemma_lower_seq_concat(a, b.drop_last());
+        assert(lower_seq(a + b) =~= lower_seq(a) + lower_seq(b));
+    }
+}
+
+/// lower-casing is a projection: applying it twice is applying it once
+pub proof fn lemma_lower_seq_idem(s: Seq<char>)
+    ensures lower_seq(lower_seq(s)) == lower_seq(s)
+    decreases s.len()
+{
+    if s.len() > 0 {
+        lemma_lower_seq_idem(s.drop_last());
+        axiom_lower_idem_char(s.last());
+        lemma_lower_seq_concat(lower_seq(s.drop_last()), u_to_lower(s.last()));
+    }
 }
 
 // ---- theory: split.rs ----
@@ -540,6 +574,21 @@ pub proof fn lemma_lt_asym(a: Seq<char>, b: Seq<char>)
 {
     lemma_lex_flip(a, b);
 }
+
+/// in a strictly ascending list, the value paired with key `k` is the one at `pos_of(k)`
+pub proof fn lemma_has_pair_pos(v: Seq<(QualifierKey, SmallString)>, k: Seq<char>)
+    requires keys_sorted(v)
+    ensures forall|val: Seq<char>| has_pair(v, k, val) ==> 0 <= pos_of(v, k) < v.len() && v[pos_of(v, k)].0.0@ == k && v[pos_of(v, k)].1@ == val
+{
+    assert forall|val: Seq<char>| has_pair(v, k, val) implies 0 <= pos_of(v, k) < v.len() && v[pos_of(v, k)].0.0@ == k && v[pos_of(v, k)].1@ == val by {
+        let i = choose|i: int| 0 <= i < v.len() && #[trigger] v[i].0.0@ == k && v[i].1@ == val;
+        assert forall|j: int| 0 <= j < i implies str_lt(#[trigger] v[j].0.0@, k) by { assert(str_lt(v[j].0.0@, v[i].0.0@)); }
+        assert forall|j: int| i <= j < v.len() implies !str_lt(#[trigger] v[j].0.0@, k) by {
+            if j == i { lemma_lt_irrefl(k); } else { assert(str_lt(v[i].0.0@, v[j].0.0@)); lemma_lt_asym(k, v[j].0.0@); }
+        }
+        lemma_pos_of(v, k, i);
+    }
+}
 // ---- R9: stub of std's AsRef, with a specification of the text it exposes ----
 pub uninterp spec fn view_of<T: ?Sized>(t: &T) -> Seq<char>;
 #[verifier::external_body]
@@ -697,6 +746,19 @@ pub open spec fn shape_rel(t0: Seq<char>, p0: PurlParts, t1: Seq<char>, p1: Purl
     && (!valid_type(t0) ==> r == Err::<(), ParseError>(ParseError::InvalidPackageType))
 }
 
+
+/// C10 / C13 (type string): validating and ASCII-lower-casing twice is doing it once
+pub proof fn lemma_shape_idem(t0: Seq<char>, p0: PurlParts, t1: Seq<char>, p1: PurlParts, t2: Seq<char>, p2: PurlParts, r2: Result<(), ParseError>)
+    requires shape_rel(t0, p0, t1, p1, Ok::<(), ParseError>(())), shape_rel(t1, p1, t2, p2, r2)
+    ensures r2 is Ok, t2 == t1, p2 == p1
+{
+    assert(valid_type(t0));
+    let l = lower_ascii_seq(t0);
+    assert(t1 == l);
+    assert forall|i: int| 0 <= i < l.len() implies type_char(#[trigger] l[i]) && !ascii_upper_c(l[i]) by { assert(type_char(t0[i])); }
+    assert(valid_type(l));
+    lemma_lower_ascii_fixed(l);
+}
 
 // ---- unit theory.pkgtype  <= (contracts):0 ----
 // ---- vocabulary for the package-type rules, written from C08's wording ----
